@@ -21,10 +21,10 @@ struct VF {
     ref::Parsed parsed;                            // carquet files: peer-reader view (page spans, offsets)
 };
 
-struct Opts { bool allow_nested = true; bool allow_carquet = true; bool bias_zero_copy = false; bool flat_only = false; bool stats = true; bool small = false; bool force_crc = false; int force_source = -1; };
+struct Opts { bool allow_nested = true; bool allow_carquet = true; bool bias_zero_copy = false; bool flat_only = false; bool stats = true; bool small = false; bool force_crc = false; int force_source = -1; bool wide_footer = false; };      // wide_footer: peer file whose footer outgrows the reader's first metadata arena block
 
 static inline bool make(VF& vf, const std::string& path, const Opts& o) {
-    bool carquet = o.force_source >= 0 ? o.force_source == 1 : (o.allow_carquet && sim::draw(3) == 2);
+    bool carquet = o.wide_footer ? false : o.force_source >= 0 ? o.force_source == 1 : (o.allow_carquet && sim::draw(3) == 2);
     if (carquet) {
         gen::FlatOpts fo; fo.allow_wide = false; if (o.small) { fo.allow_big = false; fo.max_cols = 4; fo.max_rgs = 2; }
         gen::WritePlan p = gen::gen_write_plan(fo);
@@ -44,8 +44,17 @@ static inline bool make(VF& vf, const std::string& path, const Opts& o) {
         return true;
     }
     Table t;
-    bool nested = o.allow_nested && !o.flat_only && sim::draw(10) < 5;
-    if (nested) { peergen::SchemaOpts so; if (o.small) { so.max_nodes = 12; so.max_depth = 3; } t = peergen::gen_nested_table(so, o.small ? 2 : 3); }
+    bool nested = !o.wide_footer && o.allow_nested && !o.flat_only && sim::draw(10) < 5;
+    if (o.wide_footer) {
+        // 60-100 columns x 3-4 row groups of 0-2 rows: the parsed metadata (one chunk record per column and row group, with
+        // statistics, paths and encodings) needs more than one arena block, so block allocations happen while the footer is parsed
+        t.root.name = "schema"; t.root.leaf = false;
+        int ncols = 60 + (int)sim::draw(41), nrg = 3 + (int)sim::draw(2);
+        for (int i = 0; i < ncols; i++) { Node n; n.leaf = true; n.name = "wide_column_with_a_long_name_" + std::to_string(i); n.type = peergen::ALLTYPES[sim::draw(8)]; n.rep = sim::draw(2) ? OPT : REQ; n.tlen = n.type == T_FLBA ? 4 : 0; t.root.kids.push_back(n); }
+        derive_leaves(t);
+        for (int g = 0; g < nrg; g++) { RowGroup rg; rg.rows = (int64_t)sim::draw(3); rg.cols.resize(t.cols.size()); for (size_t c = 0; c < t.cols.size(); c++) gen::fill_chunk(rg.cols[c], t.cols[c], rg.rows); t.rgs.push_back(rg); }
+    }
+    else if (nested) { peergen::SchemaOpts so; if (o.small) { so.max_nodes = 12; so.max_depth = 3; } t = peergen::gen_nested_table(so, o.small ? 2 : 3); }
     else t = peergen::gen_flat_any(o.small ? 4 : 6, o.small ? 2 : 3, !o.small);
     peergen::LayoutOpts lo; lo.stats = o.stats;
     ref::Layout L = peergen::gen_layout(t, lo);
